@@ -1,0 +1,118 @@
+//go:build verif
+
+package keeper
+
+// Contracts for the verification framework in /verif (comment-only file; compiled
+// only with -tags verif, where it contributes nothing but these comments).
+
+//@ // ---- typed ghost views of the module store (accessor contracts below are assumed) ----
+//@ ghost minterState go:types.MinterState
+//@ ghost minterParams go:types.Params
+//@ ghost histPresent [int]bool
+//@ ghost histMinted [int]int
+//@ ghost histRemFrom [int]int
+//@ ghost histRemTo [int]int
+//@
+//@ func (k Keeper) GetMinterState(ctx) (minter)
+//@   trusted
+//@   ensures minter == $minterState
+//@ func (k Keeper) SetMinterState(ctx, minter)
+//@   trusted
+//@   modifies $minterState
+//@   ensures $minterState == minter
+//@ func (k Keeper) SetMinterStateHistory(ctx, state)
+//@   trusted
+//@   modifies $histPresent, $histMinted, $histRemFrom, $histRemTo
+//@   ensures $histPresent == store(old($histPresent), state.SequenceId, true)
+//@   ensures $histMinted == store(old($histMinted), state.SequenceId, state.AmountMinted)
+//@   ensures $histRemFrom == store(old($histRemFrom), state.SequenceId, state.RemainderFromPreviousMinter)
+//@   ensures $histRemTo == store(old($histRemTo), state.SequenceId, state.RemainderToMint)
+//@ func (k Keeper) GetParams(ctx) (p)
+//@   trusted
+//@   ensures p == $minterParams
+//@
+//@ // ---- minters list as stored: sorted by contiguous sequence ids (ValidateParamsMinters sorts in place) ----
+//@ pred sortedMinters(ms) = len(ms) >= 1 && ms[0] != nil && ms[0].SequenceId >= 1
+//@   && (forall i :: {ms[i]} 0 <= i && i < len(ms) ==> ms[i] != nil && ms[i].SequenceId == ms[0].SequenceId + i && ms[i].SequenceId <= maxUint32)
+//@
+//@ func getCurrentAndPreviousMinter(minters, state) (currentMinter, previousMinter)
+//@   requires state != nil && sortedMinters(minters)
+//@   ensures let k = state.SequenceId - minters[0].SequenceId in
+//@     (0 <= k && k < len(minters) ==> currentMinter == minters[k] && (k == 0 ? previousMinter == nil : previousMinter == minters[k - 1]))
+//@   ensures state.SequenceId < minters[0].SequenceId ==> currentMinter == nil && previousMinter == nil
+//@   ensures state.SequenceId >= minters[0].SequenceId + len(minters) ==> currentMinter == nil && previousMinter == minters[len(minters) - 1]
+//@   prop C02
+//@ loop getCurrentAndPreviousMinter#1
+//@   invariant 0 <= \i && \i <= len(minters)
+//@   invariant let k = state.SequenceId - minters[0].SequenceId in
+//@     (0 <= k && k < \i ==> currentMinter == minters[k]) && (!(0 <= k && k < \i) ==> currentMinter == nil)
+//@     && (k >= 1 && \i >= 1 ==> previousMinter == minters[min(k, \i) - 1]) && (k <= 0 || \i == 0 ==> previousMinter == nil)
+//@   decreases len(minters) - \i
+//@
+//@ // ---- bank wrappers ----
+//@ func (k Keeper) MintCoins(ctx, newCoins) (err)
+//@   modifies $bal, $supply
+//@   ensures err != nil ==> $bal == old($bal) && $supply == old($supply)
+//@   ensures err == nil ==> (forall d: str :: {$supply[d]} $supply[d] == old($supply[d]) + newCoins[d])
+//@   ensures err == nil ==> (forall d: str :: {$bal[modaddr("cfeminter")][d]} $bal[modaddr("cfeminter")][d] == old($bal[modaddr("cfeminter")][d]) + newCoins[d])
+//@   ensures forall a: str :: {$bal[a]} a != modaddr("cfeminter") ==> $bal[a] == old($bal[a])
+//@   prop C01
+//@ func (k Keeper) SendMintedCoins(ctx, fees) (err)
+//@   requires modaddr(k.collectorName) != modaddr("cfeminter")
+//@   modifies $bal
+//@   ensures err != nil ==> $bal == old($bal)
+//@   ensures err == nil ==> (forall d: str :: {$bal[modaddr("cfeminter")][d]} $bal[modaddr("cfeminter")][d] == old($bal[modaddr("cfeminter")][d]) - fees[d])
+//@   ensures err == nil ==>
+//@     (forall d: str :: {$bal[modaddr(k.collectorName)][d]} $bal[modaddr(k.collectorName)][d] == old($bal[modaddr(k.collectorName)][d]) + fees[d])
+//@   ensures forall a: str :: {$bal[a]} a != modaddr("cfeminter") && a != modaddr(k.collectorName) ==> $bal[a] == old($bal[a])
+//@   prop C01
+//@
+//@ // ---- the emission step ----
+//@ pred validMinters(ms, start) = sortedMinters(ms)
+//@   && (forall i :: {ms[i]} 0 <= i && i < len(ms) ==> validMinter(ms[i]))
+//@   && (forall i :: {ms[i]} 0 <= i && i < len(ms) - 1 ==> ms[i].EndTime != nil)
+//@   && ms[len(ms) - 1].EndTime == nil
+//@   && timeOK(start) && (len(ms) > 1 ==> *ms[0].EndTime - start >= secondNs)
+//@   && (forall i :: {ms[i]} 1 <= i && i < len(ms) - 1 ==> *ms[i].EndTime - *ms[i - 1].EndTime >= secondNs)
+//@ spec func curIdx(p, seq) int = seq - p.Minters[0].SequenceId
+//@ spec func cur(p, seq) any = p.Minters[curIdx(p, seq)]
+//@ spec func startOf(p, seq) int = curIdx(p, seq) == 0 ? p.StartTime : *p.Minters[curIdx(p, seq) - 1].EndTime
+//@ pred hasMinter(p, seq) = 0 <= curIdx(p, seq) && curIdx(p, seq) < len(p.Minters)
+//@ // state invariant of the minter between blocks
+//@ pred J(p, st, t) = !st.AmountMinted.IsNil() && st.AmountMinted >= 0 && !st.RemainderFromPreviousMinter.IsNil()
+//@   && 0 <= st.RemainderFromPreviousMinter && st.RemainderFromPreviousMinter < P
+//@   && hasMinter(p, st.SequenceId) && startOf(p, st.SequenceId) <= t
+//@ // carry with which period j was entered, read from the live state or from the history
+//@ spec func carryIn(j) int = $minterState.SequenceId == j ? $minterState.RemainderFromPreviousMinter : $histRemFrom[j]
+//@
+//@ func (k Keeper) mint(ctx, params, level) (res, err)
+//@   requires params != nil && validMinters(params.Minters, params.StartTime) && timeOK($blockTime)
+//@   requires J(params, $minterState, $blockTime)
+//@   requires modaddr(k.collectorName) != modaddr("cfeminter")
+//@   requires 0 <= level && level <= $minterState.SequenceId
+//@   uses let m = cur(params, $minterState.SequenceId) in let s = startOf(params, $minterState.SequenceId) in
+//@     linSchedNonNeg(linCfg(m).Amount, s, *m.EndTime, $blockTime)
+//@     && expSchedNonNeg(expCfg(m).Amount, expCfg(m).AmountMultiplier, expCfg(m).StepDuration, s, *m.EndTime, m.EndTime != nil, $blockTime)
+//@   modifies $minterState, $histPresent, $histMinted, $histRemFrom, $histRemTo, $bal, $supply
+//@   decreases params.Minters[0].SequenceId + len(params.Minters) - $minterState.SequenceId
+//@   ensures !res.IsNil() && res >= 0
+//@   ensures err == nil ==> $supply[params.MintDenom] == old($supply[params.MintDenom]) + res
+//@   ensures forall d: str :: {$supply[d]} d != params.MintDenom ==> $supply[d] == old($supply[d])
+//@   ensures err == nil ==> J(params, $minterState, $blockTime) && $minterState.SequenceId >= old($minterState.SequenceId)
+//@   ensures forall j :: {$histMinted[j]} j < old($minterState.SequenceId) ==>
+//@     $histPresent[j] == old($histPresent[j]) && $histMinted[j] == old($histMinted[j]) && $histRemFrom[j] == old($histRemFrom[j]) && $histRemTo[j] == old($histRemTo[j])
+//@   ensures err == nil ==> carryIn(old($minterState.SequenceId)) == old($minterState.RemainderFromPreviousMinter)
+//@   ensures let st0 = old($minterState) in let m = cur(params, st0.SequenceId) in
+//@     let x = sched(m, startOf(params, st0.SequenceId), $blockTime) + st0.RemainderFromPreviousMinter in
+//@     err == nil && truncInt(x) >= st0.AmountMinted && (m.EndTime == nil || $blockTime < *m.EndTime) ==>
+//@       $minterState.SequenceId == st0.SequenceId && $minterState.AmountMinted == truncInt(x)
+//@       && $minterState.RemainderToMint == x - truncInt(x) * P && $minterState.LastMintBlockTime == $blockTime
+//@       && res == truncInt(x) - st0.AmountMinted
+//@   ensures let st0 = old($minterState) in let m = cur(params, st0.SequenceId) in
+//@     let x = sched(m, startOf(params, st0.SequenceId), $blockTime) + st0.RemainderFromPreviousMinter in
+//@     err == nil && truncInt(x) >= st0.AmountMinted && m.EndTime != nil && $blockTime >= *m.EndTime ==>
+//@       $minterState.SequenceId > st0.SequenceId && $histPresent[st0.SequenceId]
+//@       && $histMinted[st0.SequenceId] == truncInt(x) && $histRemTo[st0.SequenceId] == x - truncInt(x) * P
+//@       && carryIn(st0.SequenceId + 1) == x - truncInt(x) * P
+//@       && res >= truncInt(x) - st0.AmountMinted
+//@   prop C02 C01
